@@ -355,11 +355,12 @@ theorem baseParameter_shift (irf : Irf α) (i : Nat) (p : IrfPar α)
   split at h
   · cases h
   · rename_i cs ws hb
+    simp only at h
     split at h
+    · cases h
     · cases h
       simp_all
     · rename_i sh hsh
-      simp only at h
       split at h
       · cases h
         simp_all
